@@ -11,11 +11,15 @@ Inductive kop :=
 | KDropMeasurement (m : N)
 (* path: 0 = a select-path shape, 1 = a listing; primed: the identical tag filter was evaluated before the last DROP SERIES
    (its cached answer may still be served for some seconds); obs: series keys seen in the answer *)
-| KRead (path : N) (primed : bool) (m : N) (q : option expr) (obs : list series).
+| KRead (path : N) (primed : bool) (m : N) (q : option expr) (obs : list series)
+(* conditioned listings: tag values of key k / tag keys, of the series of m selected by q *)
+| KVals (m k : N) (q : option expr) (obs : list N)
+| KKeys (m : N) (q : option expr) (obs : list N).
 
 Definition pair_mem (tab : list (N * N)) (a b : N) : bool := existsb (fun x => (fst x =? a) && (snd x =? b)) tab.
 Definition smem (s : series) (l : list series) : bool := existsb (series_eqb s) l.
 Definition sset_eqb (a b : list series) : bool := forallb (fun x => smem x b) a && forallb (fun x => smem x a) b.
+Definition nset_eqb (a b : list N) : bool := forallb (fun x => mem x b) a && forallb (fun x => mem x a) b.
 Definition keys_of (L : list entry) (ids : list N) : list series := flat_map (key_of L) ids.
 
 Record ctab := mkT { t_am : list (N * N); t_orv : list N; t_ord : list (N * N) }.
@@ -42,6 +46,12 @@ Fixpoint check_ops (ca co : bool) (t : ctab) (k : nat) (s : dstate) (prev : list
       let ok := sset_eqb (model_read ca co t s (d_del s) path m q) obs ||
                 (primed && sset_eqb (model_read ca co t s prev path m q) obs) in
       (if ok then [] else [k]) ++ check_ops ca co t (S k) s prev r
+  | KVals m key q obs :: r =>
+      (if nset_eqb (list_tag_values_where (pair_mem (t_am t)) (d_T s) (d_del s) m key q) obs then [] else [k])
+      ++ check_ops ca co t (S k) s prev r
+  | KKeys m q obs :: r =>
+      (if nset_eqb (list_tag_keys_where (pair_mem (t_am t)) (d_T s) (d_del s) m q) obs then [] else [k])
+      ++ check_ops ca co t (S k) s prev r
   end.
 
 Definition ccase := (ctab * list kop)%type.
